@@ -37,6 +37,7 @@ def run(rep, tier, seed):
         raise Machinery("deviation FreshBars=FALSE: expected a counterexample to ResultsStable, TLC says %r %s" % (dev.violated, (dev.error or "")[:200]))
     rep.add_tlc(dev, "deviation_FreshBars_FALSE (counterexample expected and found)")
     T.full_api_histories(rep, seed, n=60 if q else 400)
+    T.dtype_histories(rep, seed)
     T.validate_recorded(rep, "C06", repo_tests=False)
     T.self_test(rep)
     return rep.finish("one case = (program, history of calls); non-trivial = history with >= 2 calls; distinct by (config, behaviour); "
